@@ -1279,6 +1279,8 @@ func TestCheck(t *testing.T) {
 				c.twice("interleaving", rp.Cfg, c.interleave)
 			} else if rp.Kind == "fwd-retry" {
 				c.twice("fwd-retry", rp.Cfg, c.executeRetry)
+			} else if rp.Kind == "server-opts" {
+				c.twice("server-opts", rp.Cfg, c.serverOptions)
 			} else if rp.Kind == "server" {
 				c.twice("server", rp.Cfg, c.serverScenario)
 			} else if rp.Script != "" || rp.Kind == "script" {
@@ -1314,6 +1316,12 @@ func TestCheck(t *testing.T) {
 	for k, n := 0, r.Pick(24, 480); k < n; k++ {
 		if r.Mine(k) {
 			c.twice("server", k, c.serverScenario)
+		}
+	}
+	// the real statsd.Server with a random option mix, events on both ingestion paths (UDP lines and its own /v2/event)
+	for k, n := 0, r.Pick(16, 320); k < n; k++ {
+		if r.Mine(k) {
+			c.twice("server-opts", k, c.serverOptions)
 		}
 	}
 	// forced interleaving: WaitForEvents from another goroutine while a dispatch is parked on the semaphore
